@@ -317,6 +317,69 @@ def rule_permit_use(ctx):
     ctx.extra["tx_macro_sites"] = n_tx
 
 
+def rule_reads_feed_writes(ctx):
+    """C10.7 — a value that a transactional write stores must not come from a read outside that transaction: in every
+    body that brackets store writes with begin .. commit, each store *read* in the backward closure of a write's
+    arguments is a transaction-variant read issued inside the same bracket.  (A head looked up on the pool before
+    begin() is stale by the time the write runs: two writers compute the same next sequence number / backlink.)"""
+    from mir import deep_locals
+    prog = ctx.prog
+    writes, reads_tx, reads_pool = set(), set(), set()
+    for m in store_methods(prog):
+        tx, pool, write = classify(prog, m)
+        if write:
+            writes.add(m.name)
+        elif tx and not pool:
+            reads_tx.add(m.name)
+        else:
+            reads_pool.add(m.name)
+    n = 0
+    # stores with a single owner are exempt: their read-modify-write cycles are serialised by the owner
+    SINGLE_OWNER = {"address_book": "AddressBookStore is only used by the address book actor, whose mailbox serialises every "
+                                    "read-modify-write cycle"}
+    done = set()
+    for b, bb, t in callers_of(prog, T + "begin"):
+        if b.crate == "p2panda_store" or b.path in done:
+            continue
+        done.add(b.path)
+        begins = calls_to(b, T + "begin")
+        commits = calls_to(b, T + "commit")
+        calls = sem_calls(b)
+        store_calls = [c for c in calls if (c.name.startswith("p2panda_store::") or c.resolved.startswith("p2panda_store::")
+                                            or "p2panda_store::" in c.name)]
+        by_result = {c.result: c for c in store_calls if c.result is not None}
+        for w in store_calls:
+            wname = w.name.rsplit("::", 1)[-1]
+            if wname not in writes:
+                continue
+            if any(("::%s::" % k) in w.name or ("::%s::" % k) in w.resolved for k in SINGLE_OWNER):
+                continue
+            bg = [g for g in begins if b.dominates(g.done_bb, w.bb)]
+            if not bg:
+                continue
+            n += 1
+            feeding = set()
+            for a in w.args[1:]:
+                locs, _ = deep_locals(b, a)
+                feeding |= set(locs)
+            bad = []
+            for loc in feeding:
+                r = by_result.get(loc)
+                if r is None or r is w:
+                    continue
+                rname = r.name.rsplit("::", 1)[-1]
+                if rname in writes or rname in ("begin", "commit", "rollback"):
+                    continue
+                inside = any(b.dominates(g.done_bb, r.bb) for g in bg)
+                if rname in reads_pool or not inside:
+                    bad.append("%s (%s)" % (rname, "pool read" if rname in reads_pool else "before begin()"))
+            ctx.ob("C10.7", "reads feeding %s are transactional:%s" % (wname, b.root.split("::", 1)[-1]), not bad,
+                   "`%s`: the value written by %s derives from %s — a read that is not part of the write's transaction; a "
+                   "concurrent writer can change the log between that read and the write (stale sequence number / backlink)"
+                   % (b.root, wname, sorted(set(bad))), site=w.loc(), key="C10.7:stale-read:%s:%s" % (b.root, wname))
+    ctx.floor("C10.7", "transactional writes examined", n, 3)
+
+
 def run(ctx):
     ctx.explanation = (
         "Decides: (1) begin: acquire_owned dominates lock/pool.begin/replace, the permit moves into the "
@@ -327,15 +390,17 @@ def run(ctx):
         "it only after the rollback completed; (4) permit is not Clone/Copy and consumed by value, who "
         "touches the shared slot; (5) every write method of every store trait runs through SqliteStore::tx "
         "(two frozen exceptions), no pool write under a live permit; (6) every begin() result is consumed "
-        "by commit/rollback, commit never on an error edge. NOT decided: SQLite atomicity, schedules.")
+        "by commit/rollback, commit never on an error edge; (7) every store read in the backward closure of a "
+        "transactional write's arguments is a transaction-variant read inside the same begin..commit bracket. NOT "
+        "decided: SQLite atomicity, schedules.")
     for r in (rule_begin, lambda c: rule_finish(c, COMMIT, "commit"), lambda c: rule_finish(c, ROLLBACK, "rollback"),
-              rule_mark, rule_drop, rule_ownership, rule_methods, rule_permit_use):
+              rule_mark, rule_drop, rule_ownership, rule_methods, rule_permit_use, rule_reads_feed_writes):
         ctx.guarded(lambda r=r: r(ctx), "C10")
 
 
 MANIFEST = {
     "category": "other",
-    "technique": "MIR pairing/ordering rules (dominance, must-pass, await model), decision table of TransactionPermit::drop, TX/POOL classification of all store methods, who-may-touch scan",
+    "technique": "MIR pairing/ordering rules (dominance, must-pass, await model), decision table of TransactionPermit::drop, TX/POOL classification of all store methods, who-may-touch scan, backward-closure rule: reads feeding a transactional write are transaction reads inside the bracket",
     "text": "Static, all paths and all abort points visible as control flow: semaphore/transaction bracket of begin/commit/rollback, rollback-before-release in the drop path for every value of `committed` and any further condition, write methods confined to the transaction, permits consumed. Necessary structural conditions of atomicity/serialisation; SQLite's own behaviour and workload interleavings are not decided.",
     "note": "Trusted: rustc MIR, driver, rule engine; tokio Semaphore/Mutex/spawn and sqlx Transaction semantics as axioms. Frozen exceptions: prune_entries, delete_operation_payload (auto-commit statements).",
 }
